@@ -9,6 +9,8 @@ import (
 	"sort"
 	"strings"
 
+	"golang.org/x/tools/go/ssa"
+
 	"verif/gqlvet/core"
 )
 
@@ -253,9 +255,9 @@ func c08Escape(c *core.Ctx, r *core.Reporter) {
 	}
 	if quoter.Pkg() == nil || !strings.HasPrefix(quoter.Pkg().Path(), core.ModPath) {
 		std := map[string]string{
-			"strconv.Quote":        `\a \v \xNN \UNNNNNNNN`,
-			"strconv.QuoteToASCII": `\a \v \xNN \UNNNNNNNN`,
-			"fmt.Sprintf":          `(%q) \a \v \xNN \UNNNNNNNN`,
+			"strconv.Quote":         `\a \v \xNN \UNNNNNNNN`,
+			"strconv.QuoteToASCII":  `\a \v \xNN \UNNNNNNNN`,
+			"fmt.Sprintf":           `(%q) \a \v \xNN \UNNNNNNNN`,
 			"encoding/json.Marshal": `(HTML escapes, invalid UTF-8 replaced)`,
 		}
 		name := quoter.Pkg().Path() + "." + quoter.Name()
@@ -337,6 +339,46 @@ func c08Escape(c *core.Ctx, r *core.Reporter) {
 		"the string writer does not escape both the quote and the backslash: such values print as unparseable or different strings")
 	r.Check(hasCtl && escapesChar['\n'] && escapesChar['\r'], "StringValue/escapes-control", qd.Pos(), "line terminators and all control characters below U+0020 are escaped",
 		"the string writer does not escape every control character below U+0020 (the lexer rejects them raw and a newline ends the string)")
+	// no exit of the quoter returns the input text itself (whole, concatenated or sliced): every byte goes through the escaping switch
+	if qf := c.Func(rel, quoter.Name()); qf != nil {
+		var raw *ssa.Return
+		for _, ret := range core.Returns(qf) {
+			if len(ret.Results) == 1 && carriesStringParam(core.RetVal(ret, 0), map[ssa.Value]bool{}) && raw == nil {
+				raw = ret
+			}
+		}
+		if raw != nil {
+			r.Bad("StringValue/no-raw-return", raw.Pos(), "%s has an exit that returns its input text itself (a fast path around the escaping loop): whatever that path's test does not list — the control characters U+0000-U+0007, U+000B, U+000E-U+001F among them — is printed raw and the lexer rejects it", quoter.Name())
+		} else {
+			r.OK("StringValue/no-raw-return", qd.Pos(), "every exit returns text assembled by the escaping loop")
+		}
+	}
+}
+
+// carriesStringParam: v is a string parameter, or is built from one by concatenation, slicing or a phi.
+func carriesStringParam(v ssa.Value, seen map[ssa.Value]bool) bool {
+	if v == nil || seen[v] {
+		return false
+	}
+	seen[v] = true
+	switch x := v.(type) {
+	case *ssa.Parameter:
+		b, ok := x.Type().Underlying().(*types.Basic)
+		return ok && b.Kind() == types.String
+	case *ssa.BinOp:
+		return x.Op == token.ADD && (carriesStringParam(x.X, seen) || carriesStringParam(x.Y, seen))
+	case *ssa.Phi:
+		for _, e := range x.Edges {
+			if carriesStringParam(e, seen) {
+				return true
+			}
+		}
+	case *ssa.Slice:
+		return carriesStringParam(x.X, seen)
+	case *ssa.ChangeType:
+		return carriesStringParam(x.X, seen)
+	}
+	return false
 }
 
 func c08BlockQuote(c *core.Ctx, r *core.Reporter) {
@@ -433,5 +475,131 @@ func c08NoEdit(c *core.Ctx, r *core.Reporter) {
 		})
 		r.Check(bad == "", "noedit/"+k, fl.Pos(), "returns only (ActionUpdate, non-node value) or (ActionNoChange, nil)",
 			"the reducer for "+k+" "+bad+": printing can then modify the AST it is given or cut the traversal short")
+	}
+}
+
+func init() {
+	register(&core.Rule{Name: "C08/FLOW-shortform", Props: []string{"C08"}, Min: 1, // one, so that folding the two identical copies into a helper stays quiet
+		Doc: "a short form that prints one part alone is guarded by a test of every part it omits", Run: c08ShortForm})
+}
+
+// c08ShortForm: in the printer, wherever one branch yields a single printed part X alone and the other branch joins X
+// with further parts Y1..Yn, the condition selecting the short branch must test every Yi: a part that is not tested is
+// silently dropped from the output whenever it is non-empty.
+func c08ShortForm(c *core.Ctx, r *core.Reporter) {
+	p := c.Pkg("language/printer")
+	if p == nil {
+		r.Unknown("printer", token.NoPos, "package not loaded")
+		return
+	}
+	info := p.TypesInfo
+	isString := func(e ast.Expr) bool {
+		b, ok := info.TypeOf(e).Underlying().(*types.Basic)
+		return ok && b.Info()&types.IsString != 0
+	}
+	// yielded: the statement list is exactly one statement handing on a single string identifier
+	yielded := func(list []ast.Stmt) types.Object {
+		if len(list) != 1 {
+			return nil
+		}
+		var e ast.Expr
+		switch s := list[0].(type) {
+		case *ast.ReturnStmt:
+			if len(s.Results) == 0 {
+				return nil
+			}
+			e = s.Results[len(s.Results)-1]
+		case *ast.AssignStmt:
+			if len(s.Rhs) != 1 {
+				return nil
+			}
+			e = s.Rhs[0]
+		default:
+			return nil
+		}
+		id, ok := ast.Unparen(e).(*ast.Ident)
+		if !ok || !isString(id) {
+			return nil
+		}
+		return info.Uses[id]
+	}
+	// parts: string identifiers inside join([]string{...}) expressions of the statements
+	parts := func(list []ast.Stmt) map[types.Object]string {
+		out := map[types.Object]string{}
+		for _, st := range list {
+			ast.Inspect(st, func(n ast.Node) bool {
+				call, ok := n.(*ast.CallExpr)
+				if !ok {
+					return true
+				}
+				f := core.CalleeObj(info, call)
+				if f == nil || f.Name() != "join" || len(call.Args) == 0 {
+					return true
+				}
+				ast.Inspect(call.Args[0], func(m ast.Node) bool {
+					if id, ok := m.(*ast.Ident); ok {
+						if o, isVar := info.Uses[id].(*types.Var); isVar && isString(id) {
+							out[o] = id.Name
+						}
+					}
+					return true
+				})
+				return true
+			})
+		}
+		return out
+	}
+	n := 0
+	for _, f := range p.Syntax {
+		core.WalkStack(f, func(node ast.Node, stack []ast.Node) bool {
+			ifs, ok := node.(*ast.IfStmt)
+			if !ok {
+				return true
+			}
+			x := yielded(ifs.Body.List)
+			if x == nil {
+				return true
+			}
+			var alt []ast.Stmt
+			switch e := ifs.Else.(type) {
+			case *ast.BlockStmt:
+				alt = e.List
+			case nil:
+				// statements following the if in the enclosing block
+				if len(stack) >= 2 {
+					if blk, ok := stack[len(stack)-2].(*ast.BlockStmt); ok {
+						for i, st := range blk.List {
+							if st == ast.Stmt(ifs) {
+								alt = blk.List[i+1:]
+							}
+						}
+					}
+				}
+			}
+			ps := parts(alt)
+			if _, has := ps[x]; !has || len(ps) < 2 {
+				return true
+			}
+			tested := map[types.Object]bool{}
+			ast.Inspect(ifs.Cond, func(m ast.Node) bool {
+				if id, ok := m.(*ast.Ident); ok {
+					tested[info.Uses[id]] = true
+				}
+				return true
+			})
+			var miss []string
+			for o, name := range ps {
+				if o != x && !tested[o] {
+					miss = append(miss, name)
+				}
+			}
+			sort.Strings(miss)
+			n++
+			key := fmt.Sprintf("short-form#%d/%s", n, x.Name())
+			r.Check(len(miss) == 0, key, ifs.Pos(),
+				fmt.Sprintf("the branch printing %s alone tests every other part of the long form (%d parts)", x.Name(), len(ps)-1),
+				fmt.Sprintf("the branch that prints %s alone does not test %s, which the long form prints: whenever that part is non-empty it is silently dropped from the printed text (the text still parses, to a different document)", x.Name(), core.Join(miss)))
+			return true
+		})
 	}
 }
